@@ -269,6 +269,376 @@ fn growth(family: &str, make: &dyn Fn(usize) -> String, base: usize) -> (f64, Ve
     (k, pts)
 }
 
+// ------------------------------------------------------------------------------------------
+// w25: the same statement at the OTHER places where a text becomes a document and is linted —
+// the language server's own dispatch (`Backend::update_document`, reached by didOpen / didChange
+// under every language id, with default / all-rules / isolateEnglish / other-dialect
+// configurations), the JS API (`harper_wasm::Linter::{lint, is_likely_english, isolate_english}`,
+// four dialects, default and all-rules configuration) and the command line (`harper-cli lint /
+// parse / spans` by file extension); growth of Markdown and comment front-ends.
+// ------------------------------------------------------------------------------------------
+
+/// witnesses of every panic / hang found so far (the corpus of `run`, shared with the new streams)
+const W25_CORPUS: &[&str] = &[
+    "the how", "better then ", "It is better then ", "/** {@link */", "/** See {@link Foo", ">", "> ", "\\begin{code}\n>",
+    "First. one two three four five six seven eight nine ten eleven twelve thirteen fourteen fifteen sixteen seventeen eighteen nineteen twenty twenty-one two three four five six seven eight nine thirty one two three four five six seven eight nine forty one two\n",
+    "#let", "#let x", "#set text(lang:", "#f(a\nb $x$ c", "#let x = _(1)", "#{_()}", "//go:x\n//\n", "//go:generate\n//", "//go:x \n//\n", "[[||]]", "See [[|alias|extra]]", "\\[[target|alias|extra]]", "[[a|[b](x)|c]]", "![[b c|]]b c[- ", "[[a|]]b c d", " ```\n\tx", "$$$$x", "You could of \ncourse do it.", "He should of\n course.", "See e.g.", "e.g.", "1e999$", "0x", "[a-", "a@", "http://", "x:", "\"", "'", "’s",
+    "", " ", "\n", "\r\n", "\r", "\u{feff}", "a\u{301}\u{301}\u{301} 😀😀 𝒳𝒳 ｆｕｌｌｗｉｄｔｈ", "word\rword\r\rword", "# a\r\r~~~\rb\r~~~\r",
+];
+
+/// texts for the main stream (every front-end, every prefix)
+const W25_EXTRA: &[&str] = &[
+    "word\rword\r\rword. the the",
+    "# a\r\r~~~\rb\r~~~\r\rc",
+    "a\r\n\r\n```\r\nb é\r\n```\r\nthe the\r\n",
+    "> a\r> b\r\r1. c\r   - d 😀\r",
+    "| a | b |\r|---|---|\r| c é | d |\r",
+    "<div>\r</div>\r\rx é\r$$\rx\r$$\r",
+    "\u{feff}# T\n\n\u{feff}an test",
+    "ａｎ ｔｅｓｔ ｏｆ ｔｈｅ ｔｈｅ ｆｕｌｌｗｉｄｔｈ。",
+    "a\u{301}\u{301}\u{301}n te\u{300}st 😀😀 of 𝒳𝒳 the\u{200b}the",
+    "the\u{a0}the\u{2003}the\u{2028}the\u{2029}an apple\u{85}teh",
+];
+
+fn w25_all_rules_on() -> Value {
+    let g = LintGroup::new_curated(FstDictionary::curated(), Dialect::American);
+    let mut m = serde_json::Map::new();
+    for k in g.iter_keys() {
+        m.insert(k.to_string(), json!(true));
+    }
+    Value::Object(m)
+}
+
+/// the texts one editor session sends: witnesses as they are and embedded, then one text typed
+/// character by character
+fn w25_session_texts(rng: &mut Rng, id: &str, idx: usize, thorough: bool) -> Vec<String> {
+    let mut out = vec![];
+    let corpus: Vec<&str> = W25_CORPUS.iter().copied().chain(textgen::LEXER_CORNERS.iter().copied()).collect();
+    for (k, c) in corpus.iter().enumerate() {
+        if thorough || (k + idx) % 3 == 0 {
+            out.push(c.to_string());
+        }
+        if thorough || (k + idx) % 5 == 0 {
+            out.push(frontends::embed(id, c, k));
+        }
+    }
+    let n = if thorough { 12 } else { 2 };
+    for j in 0..n {
+        let prose = textgen::prose(rng);
+        out.push(if rng.chance(1, 2) { textgen::mutate(rng, &frontends::embed(id, &prose, j)) } else { frontends::embed(id, &prose, j) });
+    }
+    out.push(textgen::malformed(rng, 60));
+    let typed: Vec<char> = frontends::embed(id, "We could of went their, e.g. the how.", idx).chars().collect();
+    let step = if thorough { 1 } else { 3 };
+    for c in (0..=typed.len()).step_by(step) {
+        out.push(typed[..c].iter().collect());
+    }
+    // (recorded finding: the tree-sitter-dart grammar does not return on `[d.I`)
+    if id == "dart" {
+        out.retain(|t| !t.contains("[d.I"));
+    }
+    out
+}
+
+pub struct W25Fail {
+    class: String,
+    desc: String,
+    input: Value,
+}
+
+/// one session of the real server under language id `id`: didOpen, then didChange for every
+/// further text; after each the server must be idle and answering
+fn w25_server_session(id: &str, cfg: &Value, texts: &[String]) -> (usize, usize, Option<W25Fail>) {
+    use crate::lsclient::*;
+    let uri = format!("file:///c01-server/{}/doc.src", id.replace(' ', "_"));
+    let mut done = 0usize;
+    let mut published = 0usize;
+    let mut cur = String::new();
+    let r: Result<(), LsError> = (|| {
+        let mut ls = LsSession::start()?;
+        ls.max_wait = std::time::Duration::from_secs(40);
+        ls.initialize(cfg)?;
+        for (n, t) in texts.iter().enumerate() {
+            cur = t.clone();
+            let before = ls.publications(&uri).len();
+            if n == 0 {
+                ls.notify("textDocument/didOpen", did_open(&uri, id, t))?;
+            } else {
+                ls.notify("textDocument/didChange", did_change(&uri, n as i64 + 1, t))?;
+            }
+            ls.quiesce(cfg)?;
+            if ls.publications(&uri).len() > before {
+                published += 1;
+            }
+            if n % 7 == 3 {
+                let params = json!({"textDocument": {"uri": uri}, "range": {"start": {"line": 0, "character": 0}, "end": {"line": 0, "character": 1}}, "context": {"diagnostics": []}});
+                ls.request_sync("textDocument/codeAction", params, cfg)?;
+            }
+            done += 1;
+        }
+        ls.shutdown(cfg)?;
+        Ok(())
+    })();
+    let fail = r.err().map(|e| {
+        let class = match &e {
+            LsError::ServerPanicked(_) => "server-panic",
+            LsError::Timeout(_) => "server-hang",
+            LsError::ServerGone => "server-gone",
+            LsError::Protocol(_) => "server-protocol-error",
+        };
+        W25Fail {
+            class: class.to_string(),
+            desc: format!("harper-ls, languageId {:?}, configuration {}: after sending a {}-char text the server {}", id, cfg, cur.chars().count(), e),
+            input: json!({"stream": "server", "frontend": id, "config": cfg, "text": cur}),
+        }
+    });
+    (done, published, fail)
+}
+
+fn w25_server_stream(sess: &mut Session, ctx: &Ctx, rng: &mut Rng, only: Option<(String, Value, String)>) {
+    crate::lsclient::set_home(&ctx.out.join("c01-home"));
+    let all_on = w25_all_rules_on();
+    let cfgs = [
+        json!({"harper-ls": {}}),
+        json!({"harper-ls": {"linters": all_on}}),
+        json!({"harper-ls": {"isolateEnglish": true}}),
+        json!({"harper-ls": {"dialect": "British", "markdown": {"IgnoreLinkTitle": true}, "linters": {"SpellCheck": false, "NoSuchRule": true, "LongSentences": null}}}),
+    ];
+    let mut jobs: Vec<(String, Value, Vec<String>)> = vec![];
+    if let Some((id, cfg, text)) = only {
+        jobs.push((id, cfg, vec![text]));
+    } else {
+        for (idx, id) in frontends::language_ids().iter().enumerate() {
+            if frontends::parser_for(id, false).is_none() {
+                continue;
+            }
+            let mut r = rng.fork();
+            let k = (idx + ctx.seed as usize) % cfgs.len();
+            jobs.push((id.clone(), cfgs[k].clone(), w25_session_texts(&mut r, id, idx, ctx.tier == Tier::Thorough)));
+            if ctx.tier == Tier::Thorough {
+                jobs.push((id.clone(), cfgs[(k + 1) % cfgs.len()].clone(), w25_session_texts(&mut r, id, idx + 1, false)));
+            }
+        }
+    }
+    let outs = par_map(jobs.len(), 8, |i| w25_server_session(&jobs[i].0, &jobs[i].1, &jobs[i].2));
+    for ((id, _, texts), (done, published, fail)) in jobs.iter().zip(outs.into_iter()) {
+        for _ in 0..done.max(1) {
+            sess.o();
+        }
+        sess.count(&format!("server:front:{}", id));
+        sess.add("server:documents", done as u64);
+        sess.add("server:publications", published as u64);
+        if done == texts.len() && done > 20 {
+            sess.nontrivial(&format!("server|{}|{}", id, done));
+        }
+        if let Some(f) = fail {
+            sess.fail(&f.class, f.desc, f.input, None);
+        }
+    }
+}
+
+/// harper_wasm::Linter over every text: `lint` with both languages, `is_likely_english`,
+/// `isolate_english`; one long-lived Linter per (dialect, configuration), on a watchdog
+fn w25_wasm_stream(sess: &mut Session, ctx: &Ctx, rng: &mut Rng, only: Option<(usize, usize, String)>) {
+    let mut texts: Vec<String> = W25_CORPUS.iter().chain(textgen::LEXER_CORNERS.iter()).map(|s| s.to_string()).collect();
+    let n = if ctx.tier == Tier::Thorough { 600 } else { 40 };
+    for j in 0..n {
+        texts.push(match j % 4 {
+            0 => textgen::text(rng),
+            1 => textgen::malformed(rng, 80),
+            2 => {
+                let p = textgen::prose(rng);
+                textgen::mutate(rng, &p)
+            }
+            _ => {
+                let p = textgen::prose(rng);
+                frontends::embed("markdown", &p, j)
+            }
+        });
+    }
+    for t in ["We could of went their, e.g. the how [[a|b]] `x` $y$.", "# T\n\n- [a](b \"c\") **d** better then \n\n```\nx\n```\n"] {
+        let cs: Vec<char> = t.chars().collect();
+        for c in 0..=cs.len() {
+            texts.push(cs[..c].iter().collect());
+        }
+    }
+    let mut batches: Vec<(usize, usize)> = vec![];
+    for d in 0..4 {
+        for cfg in 0..2 {
+            batches.push((d, cfg));
+        }
+    }
+    if let Some((d, cfg, t)) = only {
+        batches = vec![(d, cfg)];
+        texts = vec![t];
+    }
+    let all_on = w25_all_rules_on().to_string();
+    let texts = std::sync::Arc::new(texts);
+    let results = par_map(batches.len(), 8, |i| {
+        let (d, cfg) = batches[i];
+        let (texts, all_on) = (texts.clone(), all_on.clone());
+        let budget = 60000 + 200 * texts.len() as u64;
+        with_timeout(budget, move || {
+            use harper_wasm::{Dialect as WDialect, Language, Linter as WLinter};
+            let wd = [WDialect::American, WDialect::British, WDialect::Canadian, WDialect::Australian][d];
+            let mut fails: Vec<(String, String)> = vec![];
+            let mut js = WLinter::new(wd);
+            if cfg == 1 {
+                let _ = js.set_lint_config_from_json(all_on);
+            }
+            let mut docs = 0usize;
+            for t in texts.iter() {
+                for (what, r) in [
+                    ("lint(Plain)", guarded(|| js.lint(t.clone(), Language::Plain).len())),
+                    ("lint(Markdown)", guarded(|| js.lint(t.clone(), Language::Markdown).len())),
+                    ("is_likely_english", guarded(|| js.is_likely_english(t.clone()) as usize)),
+                    ("isolate_english", guarded(|| js.isolate_english(t.clone()).len())),
+                ] {
+                    docs += 1;
+                    if let Err(m) = r {
+                        if fails.len() < 5 {
+                            fails.push((format!("{} panicked: {}", what, m), t.clone()));
+                        }
+                    }
+                }
+            }
+            (docs, fails)
+        })
+    });
+    for ((d, cfg), r) in batches.iter().zip(results.into_iter()) {
+        sess.count(&format!("wasm:dialect:{}:cfg:{}", d, cfg));
+        match r {
+            None => sess.fail("wasm-hang", format!("harper_wasm::Linter (dialect {}, configuration {}) did not finish {} texts within the watchdog", d, cfg, texts.len()), json!({"stream": "wasm", "dialect": d, "config": cfg, "text": ""}), None),
+            Some(Err(m)) => sess.fail("harness-panic", m, json!({"stream": "wasm", "dialect": d, "config": cfg, "text": ""}), None),
+            Some(Ok((docs, fails))) => {
+                for _ in 0..docs {
+                    sess.o();
+                }
+                sess.add("wasm:calls", docs as u64);
+                if fails.is_empty() && docs > 100 {
+                    sess.nontrivial(&format!("wasm|{}|{}", d, cfg));
+                }
+                for (m, t) in fails {
+                    let class = format!("wasm-{}", classify(&m, &t));
+                    sess.fail(&class, format!("harper_wasm::Linter (dialect {}, configuration {}): {}", d, cfg, m), json!({"stream": "wasm", "dialect": d, "config": cfg, "text": t}), None);
+                }
+            }
+        }
+    }
+}
+
+/// the real `harper-cli` executable: `lint`, `parse`, `spans` on witness files of several
+/// extensions; a panic ends the process with code 101 (or a signal), a hang never ends it
+fn w25_cli_stream(sess: &mut Session, ctx: &Ctx, only: Option<(String, String, String)>) {
+    let target = std::path::PathBuf::from(env!("CARGO_MANIFEST_DIR")).join("target").join("lsbin");
+    let built = std::process::Command::new("cargo")
+        .args(["build", "--offline", "--locked", "-p", "harper-cli", "--manifest-path", "/repo/Cargo.toml", "--target-dir"])
+        .arg(&target)
+        .env("CARGO_NET_OFFLINE", "true")
+        .stdout(std::process::Stdio::null())
+        .stderr(std::process::Stdio::null())
+        .status()
+        .map(|s| s.success())
+        .unwrap_or(false);
+    sess.count(if built { "cli:built" } else { "cli:not-built(stream skipped)" });
+    if !built {
+        return;
+    }
+    let bin = target.join("debug").join("harper-cli");
+    let dir = ctx.out.join("c01-cli");
+    let _ = std::fs::create_dir_all(&dir);
+    // one file per extension: the witnesses, one per paragraph / comment
+    let join = |lead: &str| -> String { W25_CORPUS.iter().filter(|c| !c.contains("[d.I")).map(|c| c.lines().map(|l| format!("{}{}", lead, l)).collect::<Vec<_>>().join("\n")).collect::<Vec<_>>().join("\n\n") + &format!("\n\n{}This is an test of the the thing 😀 teh.\n", lead) };
+    let mut jobs: Vec<(String, String, String)> = vec![
+        ("lint".into(), "md".into(), join("")),
+        ("parse".into(), "md".into(), "See [[|alias|extra]] the how\n\nbetter then ".into()),
+        ("lint".into(), "lhs".into(), format!("{}\n\n> x = 1\n\n>\n", join(""))),
+        ("lint".into(), "typ".into(), "#let x = _(1)\n#{_()}\n= T\nthe how better then ".into()),
+        ("lint".into(), "rs".into(), join("// ")),
+        ("lint".into(), "js".into(), format!("/** {{@link */\n/** See {{@link Foo\n{}", join("// "))),
+        ("lint".into(), "java".into(), "/** {@link */\nclass A {}\n/** See {@link Foo".into()),
+        ("lint".into(), "go".into(), "//go:x \n//\n\n//go:generate\n//\npackage a\n// the how".into()),
+        ("spans".into(), "py".into(), join("# ")),
+        ("lint".into(), "c".into(), format!("/*\n{}\n*/", join(" * "))),
+    ];
+    if let Some(o) = only {
+        jobs = vec![o];
+    }
+    let outs = par_map(jobs.len(), 10, |i| {
+        let (cmd, ext, text) = &jobs[i];
+        let file = dir.join(format!("w{}.{}", i, ext));
+        let _ = std::fs::write(&file, text);
+        let (bin, cmd, dir2) = (bin.clone(), cmd.clone(), dir.clone());
+        with_timeout(120000, move || {
+            let mut c = std::process::Command::new(&bin);
+            c.arg(&cmd).arg(&file);
+            if cmd == "lint" {
+                c.arg("--user-dict-path").arg(dir2.join("no_user_dict.txt")).arg("--file-dict-path").arg(dir2.join("no_file_dicts"));
+            }
+            c.output().map(|o| (o.status.code(), String::from_utf8_lossy(&o.stderr).to_string())).ok()
+        })
+    });
+    for ((cmd, ext, text), r) in jobs.iter().zip(outs.into_iter()) {
+        sess.o();
+        sess.count(&format!("cli:{}:{}", cmd, ext));
+        let inp = json!({"stream": "cli", "command": cmd, "ext": ext, "text": text});
+        match r {
+            None => sess.fail("cli-hang", format!("`harper-cli {} w.{}` did not end within 120 s", cmd, ext), inp, None),
+            Some(Ok(Some((code, err)))) => {
+                // 0 = no lints, 1 = lints found (`lint`); a Rust panic ends with 101, a signal has no code
+                if code.is_none() || code == Some(101) || err.contains("panicked at") {
+                    let loc = err.split("panicked at ").nth(1).and_then(|s| s.split(|c: char| c == ':' || c == '\n').next()).unwrap_or("?").to_string();
+                    sess.fail(&format!("cli-panic@{}", loc), format!("`harper-cli {} w.{}` ended with {:?}: {}", cmd, ext, code, trunc(&err, 300)), inp, None);
+                } else {
+                    sess.nontrivial(&format!("cli|{}|{}", cmd, ext));
+                }
+            }
+            _ => sess.count("cli:not-started"),
+        }
+    }
+}
+
+/// growth of parse + lint time through the Markdown parser and a comment front-end
+fn w25_growth(sess: &mut Session, ctx: &Ctx) -> Vec<Value> {
+    // (these front-ends take ≈ 0.5 µs per character: larger texts, so that the times are measurable)
+    let base = if ctx.tier == Tier::Thorough { 24000 } else { 12000 };
+    let families: Vec<(&str, &str, Box<dyn Fn(usize) -> String>)> = vec![
+        ("markdown: [[a|b]] runs on one line", "markdown", Box::new(|n| "[[a|b]] ".repeat(n / 8))),
+        ("markdown: unclosed `[` and `*`", "markdown", Box::new(|n| "[a *b ".repeat(n / 6))),
+        ("markdown: nested block quotes and lists", "markdown", Box::new(|n| "> - a\n".repeat(n / 6))),
+        ("markdown: table rows", "markdown", Box::new(|n| format!("| a | b |\n|---|---|\n{}", "| the the | an apple |\n".repeat(n / 23)))),
+        ("rust: // comment lines", "rust", Box::new(|n| "// This is an test of the the thing.\n".repeat(n / 37))),
+        ("javascript: doc comment with inline tags", "javascript", Box::new(|n| format!("/**\n{} */\n", " * see {@link Foo} and the the thing\n".repeat(n / 36)))),
+    ];
+    let mut rows = vec![];
+    for (name, id, make) in &families {
+        let job = Job { id: id.to_string(), ilt: false, wrap: Wrap::None, text: String::new(), dialect: 0, cfg: 1 };
+        let mut pts = vec![];
+        for mult in [1usize, 2, 4, 8] {
+            let text = make(base * mult);
+            let mut best = f64::MAX;
+            for _ in 0..2 {
+                let t0 = Instant::now();
+                if let Err(m) = run_one(&job, &text) {
+                    sess.fail(&classify(&m, &text), format!("{} panicked on a {}-char text of family `{}`: {}", job.name(), text.chars().count(), name, m), job.to_json(&text), None);
+                }
+                best = best.min(t0.elapsed().as_secs_f64());
+            }
+            pts.push((text.chars().count(), best));
+        }
+        let (n2, t2) = pts[1];
+        let (n8, t8) = pts[3];
+        let k = if t2 < 0.004 { 0.0 } else { (t8 / t2).ln() / ((n8 as f64) / (n2 as f64)).ln() };
+        sess.o();
+        sess.count("origin:growth-frontend");
+        rows.push(json!({"family": name, "exponent": (k * 100.0).round() / 100.0, "points": pts.iter().map(|(n, t)| json!([n, (t * 1e4).round() / 1e4])).collect::<Vec<_>>()}));
+        if k > 3.2 {
+            sess.fail("superpolynomial-growth", format!("family `{}`: time grows like n^{:.2} between 2n and 8n", name, k), json!({"family": name, "points": pts.iter().map(|(n, t)| json!([n, t])).collect::<Vec<_>>()}), None);
+        }
+    }
+    rows
+}
+
 pub fn run(ctx: &Ctx) {
     let mut sess = Session::new(ctx);
     let mut rng = Rng::new(ctx.seed);
@@ -277,6 +647,19 @@ pub fn run(ctx: &Ctx) {
             sess.nontrivial("replay-a");
             sess.nontrivial("replay-b");
             sess.finish("replay of one recorded leaf / generic-rule input", false, json!({}));
+            return;
+        }
+        if let Some(stream) = v["stream"].as_str() {
+            // w25: a failure recorded at another call site
+            let text = v["text"].as_str().unwrap_or("").to_string();
+            match stream {
+                "server" => w25_server_stream(&mut sess, ctx, &mut rng, Some((v["frontend"].as_str().unwrap_or("plaintext").to_string(), v["config"].clone(), text))),
+                "cli" => w25_cli_stream(&mut sess, ctx, Some((v["command"].as_str().unwrap_or("lint").to_string(), v["ext"].as_str().unwrap_or("md").to_string(), text))),
+                _ => w25_wasm_stream(&mut sess, ctx, &mut rng, Some((v["dialect"].as_u64().unwrap_or(0) as usize, v["config"].as_u64().unwrap_or(0) as usize, text))),
+            }
+            sess.nontrivial("replay-a");
+            sess.nontrivial("replay-b");
+            sess.finish("replay of one recorded input at another call site", false, json!({}));
             return;
         }
         let front = v["frontend"].as_str().unwrap_or("plaintext").to_string();
@@ -305,6 +688,15 @@ pub fn run(ctx: &Ctx) {
         sess.finish("replay of one recorded input", false, json!({}));
         return;
     }
+    // (development aid: only the w25 streams)
+    if std::env::var("C01_W25_ONLY").is_ok() {
+        let rows = w25_growth(&mut sess, ctx);
+        w25_cli_stream(&mut sess, ctx, None);
+        w25_wasm_stream(&mut sess, ctx, &mut rng, None);
+        w25_server_stream(&mut sess, ctx, &mut rng, None);
+        sess.finish("w25 streams only", false, json!({"growth": rows}));
+        return;
+    }
     let ids = frontends::language_ids();
     // ---- K: the pattern framework (matches / run_on_chunk / find_all_matches / chunk iterators)
     //         against the Lean model, see c01_pattern.rs --------------------------------------
@@ -326,7 +718,8 @@ pub fn run(ctx: &Ctx) {
         "First. one two three four five six seven eight nine ten eleven twelve thirteen fourteen fifteen sixteen seventeen eighteen nineteen twenty twenty-one two three four five six seven eight nine thirty one two three four five six seven eight nine forty one two\n",
         "#let", "#let x", "#set text(lang:", "#f(a\nb $x$ c", "#let x = _(1)", "#{_()}", "[d.I", "//go:x\n//\n", "//go:generate\n//", "[[||]]", "See [[|alias|extra]]", "\\[[target|alias|extra]]", "[[a|[b](x)|c]]", "![[b c|]]b c[- ", "[[a|]]b c d", " ```\n\tx", "$$$$x", "You could of \ncourse do it.", "He should of\n course.", "See e.g.", "e.g.", "1e999$", "0x", "[a-", "a@", "http://", "x:", "\"", "'", "’s",
     ];
-    let corpus: Vec<&str> = corpus.iter().copied().chain(textgen::LEXER_CORNERS.iter().copied()).collect();
+    // (w25) + line-ending and code-point families no witness had: lone CR, CRLF, BOM, fullwidth, stacked combining marks
+    let corpus: Vec<&str> = corpus.iter().copied().chain(textgen::LEXER_CORNERS.iter().copied()).chain(W25_EXTRA.iter().copied()).collect();
     for id in &ids {
         for (k, c) in corpus.iter().enumerate() {
             push(id, c.to_string(), k, &mut jobs);
@@ -432,8 +825,14 @@ pub fn run(ctx: &Ctx) {
             sess.fail("superpolynomial-growth", format!("family `{}`: time grows like n^{:.2} between 2n and 8n", name, k), json!({"family": name, "points": pts.iter().map(|(n, t)| json!([n, t])).collect::<Vec<_>>()}), None);
         }
     }
+    // ---- (w25) growth through Markdown / comment front-ends; the other call sites ---------------
+    growth_rows.extend(w25_growth(&mut sess, ctx));
+    // (the command line is built with cargo, which needs the real HOME: before `set_home`)
+    w25_cli_stream(&mut sess, ctx, None);
+    w25_wasm_stream(&mut sess, ctx, &mut rng, None);
+    w25_server_stream(&mut sess, ctx, &mut rng, None);
     sess.finish(
-        &(crate::c01_pattern::RULE.to_string() + " || " + crate::leaves::RULE + " || " + crate::prules::RULE + " || " + crate::rules2::RULE + " || " + crate::mrules::RULE + " || O: the same over MergedDictionary[curated, user] on plain / Markdown texts with words of 245–275, 505–520, 1000–4096 letters || O: Document::new + LintGroup::lint (curated default / all rules on / a fixed half of the rules; 4 dialects; long-lived per-thread groups) on every language id of the server's table (also wrapped in CollapseIdentifiers / IsolateEnglish), for every prefix (every character for texts ≤200 chars, token boundaries ±1 beyond; some with trailing whitespace) of: the corpus of past crash witnesses, rule-test sentences embedded in language-appropriate syntax and mutated, random code points, and the repo's fixtures. A panic or a watchdog timeout is a failure; the class is the panic's source location. Growth: parse+lint time at n,2n,4n,8n for 10 pathological families; exponent > 3.2 fails. Non-trivial = a unit with > 20 prefixes; distinct by (front-end, text)."),
+        &(crate::c01_pattern::RULE.to_string() + " || " + crate::leaves::RULE + " || " + crate::prules::RULE + " || " + crate::rules2::RULE + " || " + crate::mrules::RULE + " || O: the same over MergedDictionary[curated, user] on plain / Markdown texts with words of 245–275, 505–520, 1000–4096 letters || O: Document::new + LintGroup::lint (curated default / all rules on / a fixed half of the rules; 4 dialects; long-lived per-thread groups) on every language id of the server's table (also wrapped in CollapseIdentifiers / IsolateEnglish), for every prefix (every character for texts ≤200 chars, token boundaries ±1 beyond; some with trailing whitespace) of: the corpus of past crash witnesses, rule-test sentences embedded in language-appropriate syntax and mutated, random code points, and the repo's fixtures. A panic or a watchdog timeout is a failure; the class is the panic's source location. Growth: parse+lint time at n,2n,4n,8n for 10 pathological families (plain) and 6 through the Markdown parser and the Rust / JavaScript comment front-ends; exponent > 3.2 fails. At the other call sites: (server) one session of the real harper-ls per language id (default / every rule on / isolateEnglish / British + IgnoreLinkTitle + null and unknown rule keys): didOpen, then didChange for the witnesses, embedded witnesses, generated and malformed texts and one text typed in steps, with code-action requests in between — after every text the server is idle and answers; (wasm) harper_wasm::Linter, four dialects, default and every rule on, one long-lived instance each: lint(Plain), lint(Markdown), is_likely_english, isolate_english on witnesses, lexer corners, generated texts and every prefix of two texts; (cli) the real harper-cli lint / parse / spans on witness files with the extensions md, lhs, typ, rs, js, java, go, py, c — a panic (exit 101 / signal) or no end within 120 s fails. Non-trivial = a unit with > 20 prefixes; distinct by (front-end, text)."),
         false,
         json!({"growth": growth_rows, "slowest_unit_ms": slowest as u64, "language_ids": ids}),
     );
